@@ -245,10 +245,10 @@ fn arb_ingredients() -> impl Strategy<Value = Ingredients> {
         prop::collection::vec(arb_directive(), 0..3),
         prop::option::weighted(0.3, arb_string()),
         prop::bool::weighted(0.25),
-        prop::option::weighted(0.35, prop::collection::vec(prop::collection::vec(0u8..4, 0..3), 1..3)),
+        prop::collection::vec(arb_suffix(), 23..24),
     );
     let entrypart = (
-        prop::collection::vec(arb_suffix(), 23..24),
+        prop::option::weighted(0.35, prop::collection::vec(prop::collection::vec(0u8..4, 0..3), 1..3)),
         prop::collection::vec(arb_string(), 1..4),
         prop::collection::vec((0u8..6, arb_string()), 0..4),
         prop::collection::vec(prop::collection::vec((0u8..4, arb_string()), 1..4), 0..4),
@@ -272,8 +272,8 @@ fn arb_ingredients() -> impl Strategy<Value = Ingredients> {
         directives: c.3,
         log_group: c.4,
         allow_ignored: c.5,
-        entry_dims: c.6,
-        suffixes: e.0,
+        entry_dims: e.0,
+        suffixes: c.6,
         dim_values: e.1,
         strings: e.2,
         dimsets: e.3,
@@ -284,6 +284,32 @@ fn arb_ingredients() -> impl Strategy<Value = Ingredients> {
         split_pos: o.1,
         edims_pos: o.2,
         split_anyway: o.3,
+    })
+}
+
+/// one configuration with several entries that are all valid for it
+pub fn arb_valid_seq(
+    n: std::ops::Range<usize>,
+    always_timestamp: bool,
+) -> impl Strategy<Value = (EmfCfg, Vec<GenEntry>)> {
+    prop::collection::vec(arb_ingredients(), n).prop_map(move |ings| {
+        let first = ings[0].clone();
+        let mut cfg = None;
+        let mut entries = vec![];
+        for mut ing in ings {
+            // same configuration part for every entry of the sequence
+            ing.ctor = first.ctor;
+            ing.namespaces = first.namespaces.clone();
+            ing.cfg_dims = first.cfg_dims.clone();
+            ing.directives = first.directives.clone();
+            ing.log_group = first.log_group.clone();
+            ing.allow_ignored = first.allow_ignored;
+            ing.suffixes = first.suffixes.clone();
+            let (c, e) = build(ing, always_timestamp);
+            cfg = Some(c);
+            entries.push(e);
+        }
+        (cfg.unwrap(), entries)
     })
 }
 
